@@ -164,8 +164,8 @@ PANEL_HOSTS = ["example.com", "Example.COM", "bbc.co.uk", "a.b.x.kawasaki.jp", "
                "xn--9ca.fr", "é.fr", "localhost", "127.0.0.1", "example.com.", "www.bbc.co.uk."] + IPV6
 PANEL_AUTH = ["", "user@", "user:pw@", ":pw@", "user:@", "u:p:w@", "john@doe.com:p@w@", "a@b@"]   # the last '@' ends the userinfo
 PANEL_PORT = ["", ":8080", ":80", ":", ":0", ":0080"]
-PANEL_PATH = ["", "/", "/a", "/a/", "/a//b", "//a", "/a:b/@c", "/a/./../b"]
-PANEL_TAIL = ["", "?", "?q=1&r=a:b@c", "#", "#f/g", "?q#f", "?a=b?c#d?e"]
+PANEL_PATH = ["", "/", "/a", "/a/", "/a//b", "//a", "/a:b/@c", "/a/./../b", "/a%7Cb/%7c", "/s:x/h:y%3A"]   # an escaped pipe, stem-like segments
+PANEL_TAIL = ["", "?", "?q=1&r=a:b@c", "#", "#f/g", "?q#f", "?a=b?c#d?e", "?family=Open+Sans%7CRoboto#x%7Cy"]
 
 
 def _panel(acc, shard, nshards, seed, tier):
